@@ -1013,8 +1013,10 @@ def cases_td_forward(cuqi, cfg, plist, a, d, q, cell):
     rec = Recorder()
     with Patches(rec):
         r = outcome(lambda: mk_td(cuqi, cfg, rec))
-        if r[0] == "err":
-            return out
+        if r[0] == "err":       # these configurations are all valid: a refusing constructor is a failing input
+            return [Case(expr="false", meta={"kind": "td_forward", "cfg": cfg, "plist": plist, "a": a, "d": d, "pos": 0}, cell=cell,
+                         impl_fail="TimeDependentLinearPDE(method=%r, time_obs=%r, ...) refused by the constructor: %s" % (cfg["method"], cfg["tobs"], r[1]),
+                         signature="TimeDependentLinearPDE.__init__")]
         pde = r[1]
         model = mk_model(cuqi, pde, len(plist[0]), a, d)
         prev = None
@@ -1211,12 +1213,22 @@ def case_gradient(cuqi, rng, have_g, have_j, steady):
 
 
 # ---------------- the shipped PDE test problems as users ----------------
-def case_tp_poisson(cuqi, q, dim, ogm, x):
-    """Poisson1D: steady; its PDE form is tabulated by calling the problem's own PDE_form independently"""
-    meta = {"kind": "tp_poisson", "dim": dim, "ogm": ogm, "x": x}
+def tp_field_kwargs(field):
+    if field == "Step":
+        return {"field_type": "Step", "field_params": {"n_steps": 3}}
+    if field == "exp":
+        return {"map": np.exp, "imap": np.log}
+    return {}
+
+
+def case_tp_poisson(cuqi, q, dim, ogm, x, field=None):
+    """Poisson1D: steady; its PDE form is tabulated by calling the problem's own PDE_form independently (on the
+    function values par2fun(x) of the problem's own domain geometry)"""
+    meta = {"kind": "tp_poisson", "dim": dim, "ogm": ogm, "x": x, "field": field}
     rec = Recorder()
     with Patches(rec), ScriptedRandom(seed=1):      # the default solver is bound when the PDE object is constructed
-        r = outcome(lambda: cuqi.testproblem.Poisson1D(dim=dim, endpoint=1, observation_grid_map=(lambda g: g[1:-1]) if ogm else None))
+        r = outcome(lambda: cuqi.testproblem.Poisson1D(dim=dim, endpoint=1, observation_grid_map=(lambda g: g[1:-1]) if ogm else None,
+                                                       **tp_field_kwargs(field)))
         if r[0] == "err":
             return Case(expr="false", meta=meta, cell="testproblem/Poisson1D", impl_fail="Poisson1D(dim=%d) cannot be constructed: %s" % (dim, r[1]),
                         signature="Poisson1D.model")
@@ -1224,11 +1236,12 @@ def case_tp_poisson(cuqi, q, dim, ogm, x):
         pde = tp.model.pde
         rec.reset()
         o = model_output(outcome(lambda: tp.model.forward(np.array(x))))
-    A, b = pde.PDE_form(np.array(x))
+    xf = np.asarray(tp.model.domain_geometry.par2fun(np.array(x)), dtype=float)
+    A, b = pde.PDE_form(xf)
     cfg = {"steady": True, "solver": "default", "tag": 0, "gsol": np.asarray(pde.grid_sol).tolist(), "gobs": np.asarray(pde.grid_obs).tolist(),
            "omap": ["none"]}
     fterm = ctform([(0.0, np.asarray(A, float), np.asarray(b, float), np.zeros(len(b)))])
-    expr = "check_ss_forward %s %s %s None %s %s" % (ss_cfg_term(cfg, rec, "12", fterm), qcs(1), qcs(0), qcv(x), cres(o, carr))
+    expr = "check_ss_forward %s %s %s None %s %s" % (ss_cfg_term(cfg, rec, "12", fterm), qcs(1), qcs(0), qcv(xf), cres(o, carr))
     # oracle: residual of the problem's own assembled system, observation by restriction / own quadratic spline
     fail = None
     try:
@@ -1241,13 +1254,14 @@ def case_tp_poisson(cuqi, q, dim, ogm, x):
                 dim, x, o[1] if o[0] == "err" else np.asarray(o[1]).tolist(), E.tolist())
     except Exception as e:
         fail = "oracle failed: %r" % e
-    return Case(expr=expr, meta=meta, cell="testproblem/Poisson1D", impl_fail=fail, signature="Poisson1D.model" if fail else "")
+    return Case(expr=expr, meta=meta, cell="testproblem/Poisson1D/%s" % (field or "default"), impl_fail=fail, signature="Poisson1D.model" if fail else "")
 
 
-def case_tp_heat(cuqi, q, dim, mt, ogm, x):
-    meta = {"kind": "tp_heat", "dim": dim, "max_time": mt, "ogm": ogm, "x": x}
+def case_tp_heat(cuqi, q, dim, mt, ogm, x, field=None):
+    meta = {"kind": "tp_heat", "dim": dim, "max_time": mt, "ogm": ogm, "x": x, "field": field}
     with ScriptedRandom(seed=1):
-        r = outcome(lambda: cuqi.testproblem.Heat1D(dim=dim, endpoint=1, max_time=mt, observation_grid_map=(lambda g: g[:-1]) if ogm else None))
+        r = outcome(lambda: cuqi.testproblem.Heat1D(dim=dim, endpoint=1, max_time=mt, observation_grid_map=(lambda g: g[:-1]) if ogm else None,
+                                                    **tp_field_kwargs(field)))
     if r[0] == "err":
         return Case(expr="false", meta=meta, cell="testproblem/Heat1D", impl_fail="Heat1D(dim=%d, max_time=%s) cannot be constructed: %s" % (dim, mt, r[1]),
                     signature="Heat1D.model")
@@ -1255,15 +1269,16 @@ def case_tp_heat(cuqi, q, dim, mt, ogm, x):
     pde = tp.model.pde
     times = np.asarray(pde.time_steps, float).tolist()
     tb = []
+    xf = np.asarray(tp.model.domain_geometry.par2fun(np.array(x)), dtype=float)
     for t in times:
-        A, b, c = pde.PDE_form(np.array(x), t)
+        A, b, c = pde.PDE_form(xf, t)
         tb.append((t, np.asarray(A, float), np.asarray(b, float), np.asarray(c, float)))
     cfg = {"times": times, "method": pde.method, "solver": "default", "tag": 0, "gsol": np.asarray(pde.grid_sol).tolist(),
            "gobs": np.asarray(pde.grid_obs).tolist(), "tobs": np.asarray(pde._time_obs, float).tolist(), "omap": ["none"]}
     rec = Recorder()
     with Patches(rec):
         o = model_output(outcome(lambda: tp.model.forward(np.array(x))))
-    expr = "check_td_forward %s %s %s None %s %s" % (td_cfg_term(cfg, q, rec, "9", ctform(tb)), qcs(1), qcs(0), qcv(x), cres(o, carr))
+    expr = "check_td_forward %s %s %s None %s %s" % (td_cfg_term(cfg, q, rec, "9", ctform(tb)), qcs(1), qcs(0), qcv(xf), cres(o, carr))
     fail = None
     try:
         u = np.array(tb[0][3], float)
@@ -1289,17 +1304,21 @@ def case_tp_heat(cuqi, q, dim, mt, ogm, x):
                 dim, mt, x, o[1] if o[0] == "err" else np.asarray(o[1]).tolist(), E.tolist())
     except Exception as e:
         fail = "oracle failed: %r" % e
-    return Case(expr=expr, meta=meta, cell="testproblem/Heat1D", impl_fail=fail, signature="Heat1D.model" if fail else "")
+    return Case(expr=expr, meta=meta, cell="testproblem/Heat1D/%s" % (field or "default"), impl_fail=fail, signature="Heat1D.model" if fail else "")
 
 
 def cases_testproblems(cuqi, ctx, q, cases):
     rng = ctx.rng
-    for dim, ogm in [(5, None), (6, None), (6, "sub")] + ([(9, None), (8, "sub")] if ctx.thorough else []):
-        x = [rng.choice([1.0, 1.5, 2.0, 3.0]) for _ in range(dim)]
-        cases.add("testproblem/Poisson1D", "tp_poisson", lambda: case_tp_poisson(cuqi, q, dim, ogm, x), dim=dim, ogm=ogm, x=x)
-    for dim, mt, ogm in [(3, 0.1, None), (4, 0.08, None), (5, 0.08, "sub")] + ([(6, 0.03, None), (7, 0.04, "sub")] if ctx.thorough else []):
-        x = [rng.choice([0.5, 1.0, 1.5, 2.0]) for _ in range(dim)]
-        cases.add("testproblem/Heat1D", "tp_heat", lambda: case_tp_heat(cuqi, q, dim, mt, ogm, x), dim=dim, max_time=mt, ogm=ogm, x=x)
+    for dim, ogm, field in [(5, None, None), (6, None, None), (6, "sub", None), (7, None, "Step"), (5, "sub", "exp")] + (
+            [(9, None, None), (8, "sub", None), (10, "sub", "Step"), (7, None, "exp")] if ctx.thorough else []):
+        npar = 3 if field == "Step" else dim
+        x = [rng.choice([0.5, 1.0, 0.25, 1.5] if field == "exp" else [1.0, 1.5, 2.0, 3.0]) for _ in range(npar)]
+        cases.add("testproblem/Poisson1D", "tp_poisson", lambda: case_tp_poisson(cuqi, q, dim, ogm, x, field), dim=dim, ogm=ogm, x=x, field=field)
+    for dim, mt, ogm, field in [(3, 0.1, None, None), (4, 0.08, None, None), (5, 0.08, "sub", None), (6, 0.02, None, "Step"), (4, 0.06, None, "exp")] + (
+            [(6, 0.03, None, None), (7, 0.04, "sub", None), (7, 0.04, "sub", "Step")] if ctx.thorough else []):
+        npar = 3 if field == "Step" else dim
+        x = [rng.choice([0.5, 1.0, 1.5, 2.0]) for _ in range(npar)]
+        cases.add("testproblem/Heat1D", "tp_heat", lambda: case_tp_heat(cuqi, q, dim, mt, ogm, x, field), dim=dim, max_time=mt, ogm=ogm, x=x, field=field)
 
 
 # ------------------------------------------------------------------------------------------------
@@ -1504,9 +1523,9 @@ def oracle(ctx, meta):
     elif k == "ss_forward":
         cs = cases_ss_forward(cuqi, meta["cfg"], meta["plist"], meta["a"], meta["d"], "oracle")
     elif k == "tp_poisson":
-        cs = [case_tp_poisson(cuqi, q, meta["dim"], meta["ogm"], meta["x"])]
+        cs = [case_tp_poisson(cuqi, q, meta["dim"], meta["ogm"], meta["x"], meta.get("field"))]
     elif k == "tp_heat":
-        cs = [case_tp_heat(cuqi, q, meta["dim"], meta["max_time"], meta["ogm"], meta["x"])]
+        cs = [case_tp_heat(cuqi, q, meta["dim"], meta["max_time"], meta["ogm"], meta["x"], meta.get("field"))]
     for c in cs:
         if c.impl_fail:
             return c.impl_fail
